@@ -195,6 +195,13 @@ class CCIReader(TypeReaderBase):
             # no update partition, or it has no RomFS
             pass
 
+    def close(self):
+        if not self.closed:
+            # close the readers of the contents, so files opened from them are closed too
+            for content in getattr(self, 'contents', {}).values():
+                content.close()
+        super().close()
+
     def __repr__(self):
         info = [('media_id', self.media_id)]
         try:
